@@ -38,6 +38,54 @@ CHECKS = {
         "neighbour; float32 scalars and negative times are outside the quantifier.",
         "DESIGN.md section 4 C12",
     ),
+    "C06": (
+        "exhaustive enumeration of small performances x export options and of abstract MIDI files with tempo events, against an exact tick/tempo reference reader",
+        "All performances of up to three notes over grids containing exact ticks, half-tick ties and non-representable decimals, with controls, "
+        "programs, signatures and meta events, in all input kinds, ppq/mpq pairs, merge combinations and output kinds, are saved and re-loaded; "
+        "the written file is first read by an independent reference reader, then the loaded performance is compared, then saved and loaded again. "
+        "All abstract files with up to three set_tempo events in any track at any of four ticks are loaded and compared with exact piecewise integration.",
+        "Trusted: mido's file layer; the reference reader/integrator in mc/c06_model.py (Fractions). Exact half-tick ties accept either tick; a part "
+        "without program changes may gain one default program per (channel, track).",
+        "DESIGN.md section 4 C06",
+    ),
+    "C07": (
+        "per line class and version: full product of per-field alphabets (all-pairs above a size limit), parse/format/dispatch/to_v1 oracles",
+        "For every line class of versions 0.1.0-0.5.0 and 1.0.0 the product of small per-field alphabets is enumerated (complete up to a limit, "
+        "otherwise all pairs of fields complete with the rest cycled); each line object is written, parsed by its class and by the public "
+        "dispatcher, compared field-wise, re-written (text fixpoint) and, for pre-1.0 lines, converted with to_v1 and compared on musical content.",
+        "Trusted: the alphabets and per-version format facts in mc/c07_alpha.py; text is compared by fixpoint and field equality, not against an "
+        "independent writer; values the format cannot carry only need to reach a fixpoint.",
+        "DESIGN.md section 4 C07",
+    ),
+    "C10": (
+        "exhaustive enumeration of small parts (signature/clef/measure tables, pickups, gaps) x all integer positions x 7 argument forms, reference 'latest element at or before t'",
+        "Every small part over the stated alphabets (time/key signatures, clefs on up to three staves with staves lacking a clef, all measure "
+        "tilings with pickups and quarter-duration changes) is built; each of the six maps is queried at every integer position as int, numpy "
+        "integer, array, permuted array, list, one-element and empty array and compared with the reference; note-array columns derived from the "
+        "maps are compared too; edit-then-query histories re-query after Part.add/remove.",
+        "Trusted: reference maps in mc/c10_model.py; clef signs compared through partitura's own sign table after checking it is a bijection; "
+        "pickups generated only where 'full bar' has one reading.",
+        "DESIGN.md section 4 C10",
+    ),
+    "C14": (
+        "exhaustive enumeration of small note lists x control streams x thresholds and of all threshold-assignment histories, against a reference pedal model",
+        "All note lists of up to three notes on a small grid (overlapping and zero-length notes of one pitch across channels, unsorted order) "
+        "times all pedal streams of up to three events times thresholds are constructed; sounding ends are compared with a reference pedal model; "
+        "every history of 1-3 threshold assignments is compared with a fresh part; every pedal value against every threshold; note array / rebuild / track renumbering clauses.",
+        "Trusted: reference model in mc/c14_model.py; an event or re-strike exactly at the release counts either way; when the pedal is never "
+        "lifted and the pitch never struck again only sound_off >= note_off, monotonicity and recomputation are required.",
+        "DESIGN.md section 4 C14",
+    ),
+    "C16": (
+        "complete enumeration of spellings x 39 interval classes x directions and of all small scores (ties, chords, graces, decorations) x argument kinds",
+        "All steps x alterations -2..2 x octaves 0..8 are transposed by all 39 interval classes in both directions as Part and Score arguments and "
+        "compared with reference diatonic/chromatic arithmetic; all small scores of up to three slots with every tie choice and decoration are "
+        "transposed in five argument kinds: every pitched note (tie-later, chord, grace roles) must move, everything else and the argument's "
+        "full fingerprint must be unchanged, the result must share no object with the argument, up-then-down restores the spelling; "
+        "transpose_note / step2pc / Roman-numeral root and bass arithmetic are enumerated completely.",
+        "Trusted: reference arithmetic in mc/c16_model.py; only results needing at most two accidentals are compared; compound intervals out of scope.",
+        "DESIGN.md section 4 C16",
+    ),
     "C20": (
         "exhaustive enumeration of call sequences (depth 2) over an object family + stateless enumeration of all interleavings of iteration clients",
         "Every ordered pair (and every repetition) of read-only entry points is executed on every object of an enumerated family; "
